@@ -158,7 +158,7 @@ var ClientSecrets = map[string]string{"A": "secret-of-A", "B": "secret-of-B", "P
 
 var AllScopes = []string{"openid", "offline", "a", "b"}
 var AllAud = []string{"https://api.a.example/", "https://api.b.example/"}
-var RedirectOf = map[string]string{"A": "https://a.example/cb", "B": "https://b.example/cb", "P": "https://p.example/cb"}
+var RedirectOf = map[string]string{"A": "https://a.example/cb", "B": "https://b.example/cb", "P": "https://p.example/cb", "J": "https://j.example/cb"}
 
 var allGrantTypes = []string{"authorization_code", "refresh_token", "implicit", "password", "client_credentials",
 	"urn:ietf:params:oauth:grant-type:device_code", "urn:ietf:params:oauth:grant-type:jwt-bearer"}
@@ -179,17 +179,19 @@ type World struct {
 	UCs  map[string]string            // device code signature -> user code
 	IDTs []string
 
-	SignKey    interface{}           // the server's signing key (ID tokens, JWT access tokens)
-	SessionFn  func() fosite.Session // session handed to NewAuthorizeResponse / NewDeviceResponse (nil = NewSess(Subject))
-	ExtraAuthz url.Values            // additional authorization request parameters (prompt, max_age, ...)
-	Assertions []string              // client assertions the harness presented (secrets for C20)
-	Verifier   map[int]string        // per code id: the PKCE verifier used at authorization
-	PkceOf     map[int]string        // per code id: method used
-	DevRID     map[int]string
-	codeOwner  map[int]string
-	DevOwner   map[int]string // device id -> client that started the flow
-	mu         sync.Mutex
-	authzCalls int
+	SignKey      interface{}                         // the server's signing key (ID tokens, JWT access tokens)
+	TokenSessFn  func(subject string) fosite.Session // session handed to NewAccessRequest (nil = w.sess(subject))
+	assertionSeq int
+	SessionFn    func() fosite.Session // session handed to NewAuthorizeResponse / NewDeviceResponse (nil = NewSess(Subject))
+	ExtraAuthz   url.Values            // additional authorization request parameters (prompt, max_age, ...)
+	Assertions   []string              // client assertions the harness presented (secrets for C20)
+	Verifier     map[int]string        // per code id: the PKCE verifier used at authorization
+	PkceOf       map[int]string        // per code id: method used
+	DevRID       map[int]string
+	codeOwner    map[int]string
+	DevOwner     map[int]string // device id -> client that started the flow
+	mu           sync.Mutex
+	authzCalls   int
 }
 
 // plainHasher stores client secrets as "plain:<secret>"; used in bulk history runs where
@@ -398,6 +400,14 @@ func (w *World) session() fosite.Session {
 		return w.SessionFn()
 	}
 	return w.sess(Subject)
+}
+
+// tokenSess builds the session an application hands to the token endpoint
+func (w *World) tokenSess(subject string) fosite.Session {
+	if w.TokenSessFn != nil {
+		return w.TokenSessFn(subject)
+	}
+	return w.sess(subject)
 }
 
 // sess builds the session an application hands to the provider in this world
